@@ -3,7 +3,7 @@ import ast
 
 from ..model import AnalysisError, dotted, unparse
 from ..structfmt import linform, lin_eq, local_defs, reaching_def, resolve_local
-from ..util import POS, FACTS, FACTS_I, U, enum_paths, walk_no_nested, is_yield_call
+from ..util import resolved_text, POS, FACTS, FACTS_I, U, enum_paths, walk_no_nested, is_yield_call
 from ..paths import call_attr, call_name
 from ..sinkproto import SinkProto, check_request, check_response, kinds_of, describe
 from . import c03, c10, c11
@@ -288,8 +288,9 @@ def r6(ctx):
     if not truthy:
       ctx.ob('C01.R6', f, 'no deadline: forwarded unchanged', ks.count('FWD') == 1 and 'COMPLETER' not in ks, 'no-deadline path: %s' % describe(items), why, nontrivial=False)
       continue
-    expired = [(c, t) for c, t in POS(facts) if c.replace('(', '').replace(')', '') in ('%s<now' % dl, 'now>%s' % dl, '%s<=now' % dl, 'now>=%s' % dl, '%s<time.time' % dl)]
-    if expired and expired[0][1]:
+    dlx = U(dl_defs[0].value).replace(' ', '')
+    exp_true = any((t_ % d_, True) in facts for t_ in ('%s<now', '%s<=now', '%s<time.time()', '%s<=time.time()') for d_ in (dl, dlx))
+    if exp_true:
       n_exp += 1
       ctx.ob('C01.R6', f, 'expired call is answered with no forwarding', 'UP' in ks and 'FWD' not in ks and 'COMPLETER' not in ks,
              'expired path: %s' % describe(items), why)
@@ -341,7 +342,7 @@ def r6(ctx):
          'hops that parked the request (balancer open gate, mux send queue) read this event to learn that the caller already has its TimeoutError')
   r = prog.func(S, 'ClientTimeoutSink.AsyncProcessResponse')
   for ev, ex in enum_paths(ctx, r):
-    cc = [i for i, e in enumerate(ev) if e.kind == 'call' and isinstance(e.node.func, ast.Name) and e.node.func.id == r.params[2]]
+    cc = [i for i, e in enumerate(ev) if e.kind == 'call' and isinstance(e.node.func, ast.Name) and resolved_text(ev, i, e.node.func) == r.params[2]]
     up = [i for i, e in enumerate(ev) if e.kind == 'call' and call_attr(e.node) in ('AsyncProcessResponse', 'AsyncProcessResponseMessage', 'AsyncProcessResponseStream')]
     ctx.ob('C01.R6', r, 'response cancels the timer before forwarding', len(cc) == 1 and len(up) == 1 and cc[0] < up[0], 'cancel at %s, forward at %s' % (cc, up),
            'a timer that is not cancelled fires later and (only thanks to the drained stack) is wasted; cancelling after forwarding races with it')
